@@ -204,5 +204,84 @@ def build(reg):
                  "not transport._permanent_failure == (not old(transport._permanent_failure))"], **common)
 
 
+    build_connect(reg, common)
+
+
+def build_connect(reg, common):
+    """one connection attempt on Twisted: the protocol factory handed to the endpoint is built in this attempt from this
+    attempt's session factory (whose closure owns this attempt's completion future); a refused connection counts one
+    failure and completes exactly this attempt's future"""
+    TW = "autobahn.twisted.component"
+    G = reg.shapes["Ghost"].fields
+    G.update({"n_factories": "nat", "factory_from": "int", "last_factory": "int", "n_connect": "nat", "connected_with": "int"})
+
+    def ext_mk_factory(ex, state, args, kwargs, sv):
+        g = state.heap[state.ghost.oid]
+        f = z3.Int(fresh_name("transport_factory"))
+        g.fields["n_factories"] = VInt(simp(g.fields["n_factories"].t + 1))
+        g.fields["factory_from"] = args[2]
+        g.fields["last_factory"] = VInt(f)
+        return VInt(f)
+
+    def ext_mk_endpoint(ex, state, args, kwargs, sv):
+        ex.raise_if(state, z3.Bool(fresh_name("endpoint_config_invalid")), "ValueError")
+        return ex.reg.fresh_obj(ex, state, "EndpointS", "endpoint")
+
+    def ext_ep_connect(ex, state, args, kwargs, sv):
+        g = state.heap[state.ghost.oid]
+        g.fields["n_connect"] = VInt(simp(g.fields["n_connect"].t + 1))
+        g.fields["connected_with"] = args[0]
+        return VOpaque(fresh_name("connect_deferred"))
+    reg.external(TW + "._create_transport_factory", ext_mk_factory)
+    reg.external(TW + "._create_transport_endpoint", ext_mk_endpoint)
+    reg.external("endpoint.connect", ext_ep_connect)
+    reg.overrides[(TW, "_create_transport_factory")] = VFunc("builtin", TW + "._create_transport_factory")
+    reg.overrides[(TW, "_create_transport_endpoint")] = VFunc("builtin", TW + "._create_transport_endpoint")
+    reg.shape("EndpointS", fields={}, methods={"connect": "endpoint.connect"})
+    reg.shape("TransportCfg", cls=T, fields={"proxy": "none|cdict:host=str,port=int", "endpoint": "any",
+                                             "connect_failures": "nat", "connect_attempts": "nat", "url": "any",
+                                             "type": "str"})
+    reg.shape("ComponentTw", cls=TW + ":Component", fields={"log": "logger"})
+    reg.contract(
+        TW + ":Component._connect_transport",
+        params={"self": "obj:ComponentTw", "reactor": "any", "transport": "obj:TransportCfg", "session_factory": "int",
+                "done": "obj:Future"}, returns="any",
+        modifies=["ghost.n_factories", "ghost.factory_from", "ghost.last_factory", "ghost.n_connect", "ghost.connected_with"],
+        ensures=["ghost.n_connect == old(ghost.n_connect) + 1",
+                 # the factory that builds the protocol (and through it the session) of this attempt is created in this
+                 # attempt, from the session factory of this attempt -- never one kept from an earlier attempt
+                 "ghost.n_factories == old(ghost.n_factories) + 1 and ghost.factory_from == session_factory and "
+                 "ghost.connected_with == ghost.last_factory",
+                 "done.done == old(done.done)", "transport.connect_failures == old(transport.connect_failures)"],
+        raises={"ValueError": "True"}, raises_ensures={"ValueError": ["ghost.n_connect == old(ghost.n_connect)"]}, **common)
+    reg.contract(
+        TW + ":Component._connect_transport/on_connect_failure",
+        params={"err": "any", "self": "obj:ComponentTw", "transport": "obj:TransportCfg", "done": "obj:Future"},
+        requires=["not done.done"], modifies=["transport.connect_failures", "done.done"],
+        ensures=["transport.connect_failures == old(transport.connect_failures) + 1 and done.done"], **common)
+
+
+import os as _os
+_HISTORY_HARNESS = open(_os.path.join(_os.path.dirname(_os.path.abspath(__file__)), "c14_history_harness.py.txt")).read()
+
+
+def replay(o):
+    """component-level units: connection histories (refused / joined-then-lost / joined-then-left, in every order that
+    matters) on the real Twisted Component with a scripted endpoint and a virtual clock; the number of attempts, the
+    single completion of start() and the join notifications are checked against the property statement"""
+    from pyvc import replaylib as R
+    unit = o.get("unit") or o.get("name", "")
+    if not any(k in unit for k in ("_connect_transport", "_connect_once", "_start", "transport_check")):
+        return {"reproduced": False, "detail": "no replay harness for this unit"}
+    out = R.run_py(_HISTORY_HARNESS, env={"USE_TWISTED": "1"}, timeout=300)
+    bad = out.get("bad") if isinstance(out, dict) else None
+    return {"reproduced": bool(bad), "cases": (bad or [])[:4], "observed": out if not bad else {"cases": out.get("cases")},
+            "detail": "connection histories on the real Twisted Component (scripted endpoint, virtual clock)"}
+
+
 def extra_checks(tier, seed):
-    return []
+    if tier != "thorough":
+        return []
+    from pyvc import replaylib as R
+    return [R.native_crosscheck("C14/bounded/connection-histories", _HISTORY_HARNESS,
+                                "7 histories of refused / lost / left connections on the real Twisted Component")]
